@@ -384,11 +384,14 @@ fn positional(cx: &mut Cx, name: &str, op: &Op, a: &mut BinArchive, m: &mut Mode
         }
         Op::WriteLabels(ad, names) => {
             let ad = resolve(*ad, size);
-            if names.is_empty() {
-                return true;
-            }
             if let Some(Ok(())) = cx.call(|| a.write_labels(ad, names.clone())) {
-                m.labels.insert(ad, names.clone());
+                if names.is_empty() {
+                    // an empty bucket is not observable through all_labels: the model keeps no entry for it
+                    m.labels.remove(&ad);
+                    cx.label("empty-label-bucket");
+                } else {
+                    m.labels.insert(ad, names.clone());
+                }
             }
         }
         Op::DeleteString(ad) => {
@@ -418,6 +421,7 @@ fn positional(cx: &mut Cx, name: &str, op: &Op, a: &mut BinArchive, m: &mut Mode
                     }
                     if b.is_empty() {
                         m.labels.remove(&ad);
+                        cx.label("empty-label-bucket");
                     }
                 }
             }
@@ -542,6 +546,9 @@ fn reader_run(cx: &mut Cx, first: usize, ops: &[Op], a: &BinArchive, m: &mut Mod
         if !cx.check(r.tell() == m.rpos, "cursor-advances-by-width", || format!("{name}: reader cursor is {}, expected {}", r.tell(), m.rpos)) {
             return false;
         }
+        if !cx.check(r.archive().size() == size, "stream-size-accessors", || format!("{name}: reader.archive().size() = {}, archive size {size}", r.archive().size())) {
+            return false;
+        }
     }
     true
 }
@@ -634,6 +641,9 @@ fn writer_run(cx: &mut Cx, first: usize, ops: &[Op], a: &mut BinArchive, m: &mut
         if !cx.check(w.tell() == m.wpos, "cursor-advances-by-width", || format!("{name}: writer cursor is {}, expected {}", w.tell(), m.wpos)) {
             return false;
         }
+        if !cx.check(w.size() == size && w.length() == size, "stream-size-accessors", || format!("{name}: writer size() = {}, length() = {}, archive size {size}", w.size(), w.length())) {
+            return false;
+        }
     }
     true
 }
@@ -673,7 +683,7 @@ pub fn op_strategy() -> BoxedStrategy<Op> {
         2 => (a(), proptest::option::weighted(0.8, any::<u32>())).prop_map(|(x, v)| Op::WritePointer(x, v)),
         1 => a().prop_map(Op::ReadLabels),
         2 => (a(), archive_string()).prop_map(|(x, s)| Op::WriteLabel(x, s)),
-        1 => (a(), proptest::collection::vec(archive_string(), 1..3)).prop_map(|(x, s)| Op::WriteLabels(x, s)),
+        1 => (a(), proptest::collection::vec(archive_string(), 0..3)).prop_map(|(x, s)| Op::WriteLabels(x, s)),
         1 => a().prop_map(Op::DeleteString),
         1 => a().prop_map(Op::DeletePointer),
         1 => a().prop_map(Op::DeleteLabels),
@@ -737,7 +747,7 @@ impl Prop for C04 {
         true
     }
     fn random_cases(tier: Tier) -> u64 {
-        tier.pick(40_000, 6_000_000)
+        tier.pick(120_000, 6_000_000)
     }
     fn strategy(tier: Tier) -> BoxedStrategy<Case> {
         let max_size = tier.pick(24u8, 80);
@@ -771,6 +781,10 @@ impl Prop for C04 {
                         if !emit(Case { big_endian: be, size, data_seed: 7, ops: vec![Op::WSeek(*ad), Op::WWrite(ty, bits), Op::WWrite(ty, !bits)] }) {
                             return;
                         }
+                    }
+                    // a bucket emptied by delete_label / write_labels(vec![]) and then read through every label accessor
+                    if !emit(Case { big_endian: be, size, data_seed: 9, ops: vec![Op::WriteLabel(*ad, "l".into()), Op::DeleteLabel(*ad, 0), Op::RSeek(*ad), Op::RReadLabel(0), Op::RReadLabel(1), Op::RReadLabels, Op::ReadLabels(*ad), Op::WriteLabels(*ad, vec![]), Op::RReadLabel(0), Op::RReadLabels, Op::WSeek(*ad), Op::WWriteLabel("m".into()), Op::RReadLabel(0)] }) {
+                        return;
                     }
                     if !emit(Case { big_endian: be, size, data_seed: 9, ops: vec![Op::ReadString(*ad), Op::WriteString(*ad, Some("s".into())), Op::ReadPointer(*ad), Op::WritePointer(*ad, Some(0)), Op::WriteLabel(*ad, "l".into()), Op::ReadLabels(*ad), Op::ReadCString(*ad), Op::DeleteLabel(*ad, 0), Op::DeleteString(*ad), Op::DeletePointer(*ad), Op::DeleteLabels(*ad)] }) {
                         return;
